@@ -90,10 +90,14 @@ def check_schema(run, decls, r, tag):
             return
         # the two readers must agree with each other before either judges
         ct = {m.frame_id: m for m in db.messages}
+        want_ids = {S.dval(S.impl_fields(d)["id"]): d for d in by_bus[bus]}
         if set(ct) != set(mine):
+            # cantools strips the extended-frame flag (bit 31 of the BO_ number); the plain reader does not
+            if set(mine) != set(want_ids):
+                run.violation("bus %s: the BO_ numbers in the file are %s, bindings on that bus have frame ids %s (cantools reads %s)" % (bus, sorted(mine), sorted(want_ids), sorted(ct)), case_b)
+                return
             run.inconclusive_because("DBC readers disagree on the message set")
             return
-        want_ids = {S.dval(S.impl_fields(d)["id"]): d for d in by_bus[bus]}
         if set(mine) != set(want_ids):
             run.violation("bus %s lists frame ids %s, bindings on that bus have %s" % (bus, sorted(mine), sorted(want_ids)), case_b)
             return
@@ -117,6 +121,23 @@ def check_schema(run, decls, r, tag):
                 declared_units = RL.leaf_units(sch, d["type"])
             except Exception:
                 declared_units = {}
+            # leaves as the property's statement defines them (reference model, where it covers the struct):
+            # the DBC must have a signal of that name and width (and, little-endian, at that position) even
+            # when the packed encoder the generator uses names or places a leaf differently (C04 reports that)
+            try:
+                ref_leaves = RL.layout(sch, d["type"], True)
+            except Exception:
+                ref_leaves = None
+            for rn, rp, rw, _rt, _rf in ref_leaves or []:
+                sgr = m["signals"].get(dbc_name(rn))
+                if sgr is None:
+                    run.violation("message %s has no signal for layout leaf %s (signals: %s)" % (m["name"], rn, sorted(m["signals"])[:12]), case_m)
+                    return
+                if sgr["length"] != rw or (sgr["little"] and sgr["start"] != rp):
+                    run.violation("signal %s of message %s is at %d|%d, the layout leaf is at %d|%d" % (rn, m["name"], sgr["start"], sgr["length"], rp, rw), case_m)
+                    return
+            if ref_leaves is not None:
+                run.count("bindings_checked_against_the_reference_layout")
             mux_names = {v.extended_data.get("mux_signal") for v in lay if v.extended_data.get("mux_signal") is not None}
             leaves = []
             for v in lay:
